@@ -8,7 +8,10 @@ correspondence: generated isotherms of the three classes; the state of the REAL 
                 document with the state of the re-imported REAL object: outcome classes, unit labels, material and its properties,
                 adsorbate, temperature, metadata key by key WITH TYPES, every cell, every branch mark, model dictionary
 oracle/search : on the implementation alone: re-imported content == original content (typed), same identifier / ==, second export
-                byte-equal, model predictions equal; string and file targets
+                byte-equal, model predictions equal; string and file targets; HISTORIES: a random sequence of read-only queries (every
+                public method / property discovered on the class except constructors, convert_*, plots) is performed on the isotherm
+                BEFORE the export; document, to_dict keys and identifier must equal those of an untouched twin built from the same
+                arguments, and the re-imported isotherm must have the content (metadata keys!) of the used one
 """
 import json
 import os
@@ -29,7 +32,12 @@ MANIFEST = dict(
          "induction over the metadata and row lists. Partial: holds when a desorption mark exists or the marks are what the branch guess "
          "yields (the other case is a proved counterexample), and says nothing about the identifier (C05: it depends on column dtype). "
          "Every run compares the model with the implementation on generated isotherms (document and re-imported state, typed, inside Coq) "
-         "and judges the implementation by an independent round-trip oracle.",
+         "and judges the implementation by an independent round-trip oracle. Round 3: the model's to_dict is proved to be the interpretation of "
+         "BaseIsotherm.to_dict as translated from the current source; a generated table lists the names every method of the three classes binds "
+         "on the isotherm object, with theorems that the model's attribute census is closed under all methods, that every read-only query binds "
+         "only names to_dict discards (and never writes the metadata dict), and that to_dict is independent of the values of discarded names - so "
+         "a query before an export cannot change the document; per run, histories of discovered public queries are performed before the export "
+         "and the document / to_dict keys / identifier are compared with an untouched twin, the re-imported metadata keys with the original's.",
     note="Trusted: Coq kernel; the json library (contract loads(dumps v) = v with tuples turned into lists, up to key order), pandas "
          "DataFrame.from_dict / to_dict(orient='index') for rectangular rows, the adsorbate registry (canonical name, idempotent), the label "
          "tables (same labels are re-checked), the material registry not holding the material; tools/py2v_tables.py; the abstraction "
@@ -50,11 +58,37 @@ def do_export(iso, target, k):
     return isotherm_to_json(iso), None
 
 
-def run_case(spec, k, target):
-    """-> dict with everything observed on the implementation"""
+def run_case(spec, k, target, hist_seed=None):
+    import warnings
+    with warnings.catch_warnings():
+        warnings.simplefilter('ignore')      # numpy RuntimeWarnings of model formulas at extreme parameters are not our business
+        return _run_case(spec, k, target, hist_seed)
+
+
+def _run_case(spec, k, target, hist_seed=None):
+    """-> dict with everything observed on the implementation. hist_seed: perform a reproducible random history of read-only
+    queries on the isotherm BEFORE anything is observed or exported, and export an untouched twin for comparison"""
     from pygaps.parsing.json import isotherm_from_json, isotherm_to_json
     r = dict(spec=spec, target=target)
     iso = cc.build(spec)
+    if hist_seed is not None:
+        twin = cc.build(spec)
+        r['hist_seed'] = hist_seed
+        r['queries'] = cc.run_queries(iso, random.Random(hist_seed))
+        tw = {}
+        try:
+            tw['doc'] = isotherm_to_json(twin)
+            tw['keys'] = sorted(twin.to_dict())
+            tw['id'] = twin.iso_id
+            tw['attrs'] = sorted(vars(twin))
+        except Exception as e:  # noqa
+            tw['raised'] = vlib.exn_class(e)
+        r['twin'] = tw
+        try:
+            r['keys'] = sorted(iso.to_dict())
+            r['attrs'] = sorted(vars(iso))
+        except Exception as e:  # noqa
+            r['keys'] = 'raised ' + vlib.exn_class(e)
     r['o0'] = cc.observe(iso)
     r['id0'] = iso.iso_id
     pk, lk = (r['o0'].get('pk', 'pressure'), r['o0'].get('lk', 'loading'))
@@ -138,6 +172,33 @@ def content_diff(o0, o1):
     return None
 
 
+def history_diff(r):
+    """an isotherm that was only QUERIED must export like an untouched twin built from the same arguments
+    -> (short class of the difference, description) or None"""
+    tw = r['twin']
+    if 'raised' in tw or r['exp'] != 'Ok':
+        if ('raised' in tw) != (r['exp'] != 'Ok'):
+            return ('export-outcome', 'the export %s while the export of an untouched twin %s' % (
+                'raised ' + r['exp'] if r['exp'] != 'Ok' else 'succeeded', 'raised ' + tw['raised'] if 'raised' in tw else 'succeeded'))
+        return None
+    if r.get('keys') != tw['keys']:
+        a, b = r.get('keys'), tw['keys']
+        if isinstance(a, list):
+            return ('to_dict-keys', 'to_dict() has keys %s more / %s fewer than an untouched twin (instance attributes: %s more)' % (
+                [k for k in a if k not in b], [k for k in b if k not in a], [k for k in r.get('attrs', []) if k not in tw.get('attrs', [])]))
+        return ('to_dict-keys', 'to_dict() %s' % a)
+    if r['doc'] != tw['doc']:
+        try:
+            da, db = json.loads(r['doc']), json.loads(tw['doc'])
+            ks = [k for k in list(da) + [k for k in db if k not in da] if k not in da or k not in db or da[k] != db[k]]
+        except Exception:  # noqa
+            ks = '?'
+        return ('document', 'the exported document differs from the document of an untouched twin in %s' % (ks,))
+    if r['id0'] != tw['id']:
+        return ('identifier', 'the identifier %s differs from the identifier %s of an untouched twin' % (r['id0'], tw['id']))
+    return None
+
+
 def guess_would_differ(o0):
     """the all-adsorption marks are not what a fresh branch guess yields <=> the pressure maximum is not the last point
     (only used to CLASSIFY an observed change of marks, never to predict one)"""
@@ -175,6 +236,9 @@ def classify(r, kind, diff=None):
 
 def replay_dict(r, kind, extra=None):
     d = {'spec': r['spec'], 'target': r['target'], 'kind': kind}
+    if r.get('hist_seed') is not None:
+        d['hist_seed'] = r['hist_seed']
+        d['queries'] = r.get('queries')
     if extra:
         d['detail'] = str(extra)[:400]
     return d
@@ -212,6 +276,19 @@ def gen_specs(tier, seed):
     return specs
 
 
+def gen_history_specs(tier, seed):
+    """isotherms that are QUERIED before they are exported: (spec, seed of the query history)"""
+    rnd = random.Random(seed * 7919 + 11)
+    n = 900 if tier == 'thorough' else 100
+    out = []
+    for k in range(n):
+        s = cc.gen_spec(rnd, 'json', cls=rnd.choice(['point', 'point', 'point', 'point', 'model', 'model', 'base']))
+        if s['cls'] == 'point' and k % 3 == 0:
+            s['data']['cols'] = {}           # plain pressure / loading tables are what most queries accept
+        out.append((s, 'c06-hist/%d/%d' % (seed, k)))
+    return out
+
+
 def run(rep, tier, seed):
     vlib.standard_proof_phase(rep, 'C06', extra_targets=['Codec/JsonShow.vo'])
     explore(rep, tier, seed)
@@ -230,6 +307,13 @@ def explore(rep, tier, seed):
             skipped += 1
             if skipped > len(specs) // 20:
                 raise
+    n_hist = 0
+    for k, (spec, hs) in enumerate(gen_history_specs(tier, seed)):
+        try:
+            results.append(run_case(spec, len(specs) + k, 'file' if k % 4 == 3 else 'string', hist_seed=hs))
+            n_hist += 1
+        except Exception:  # noqa
+            skipped += 1
     # ---------------- correspondence (model executed in Coq)
     tbl = cc.ads_canon_table()
     terms = []
@@ -237,14 +321,16 @@ def explore(rep, tier, seed):
     results = [r for r in results_all if not r['spec'].get('nomodel')]
     for r in results:
         o0 = r['o0']
+        # the state of an isotherm that was queried: same content, interpolator caches possibly filled (opaque objects)
+        ca = tuple('VOpaque' if f else 'VNone' for f in o0.get('caches', (False, False)))
         if r['exp'] != 'Ok':
-            terms.append('(chk_json %s %s %s %s (%d)%%Z VNone 0%%Z %s)' % (tbl, cc.coq_iso(o0), cc.cstr(r['pk']), cc.cstr(r['lk']),
+            terms.append('(chk_json %s %s %s %s (%d)%%Z VNone 0%%Z %s)' % (tbl, cc.coq_iso(o0, ca), cc.cstr(r['pk']), cc.cstr(r['lk']),
                                                                           vlib.EXN.index(r['exp']) if r['exp'] in vlib.EXN else 99, cc.coq_iso(o0)))
             continue
         doc = json.loads(r['doc'])
         imp = r['imp']
         terms.append('(chk_json %s %s %s %s 0%%Z %s (%d)%%Z %s)' % (
-            tbl, cc.coq_iso(o0), cc.cstr(r['pk']), cc.cstr(r['lk']), cc.cval(doc),
+            tbl, cc.coq_iso(o0, ca), cc.cstr(r['pk']), cc.cstr(r['lk']), cc.cval(doc),
             vlib.EXN.index(imp) if imp in vlib.EXN else 99, cc.coq_iso(r['o1'] if imp == 'Ok' else o0)))
     model = None
     try:
@@ -275,9 +361,20 @@ def explore(rep, tier, seed):
     hist = {}
     nontrivial = set()
     results = results_all
+    n_q = {}
     for r in results:
         spec, o0 = r['spec'], r['o0']
-        key = spec['cls']
+        key = spec['cls'] + ('+queries' if 'twin' in r else '')
+        if 'twin' in r:
+            for q in r['queries']:
+                q = q.split('(')[0] + (' -> raised' if ' -> ' in q else '')
+                n_q[q] = n_q.get(q, 0) + 1
+            bad = history_diff(r)
+            if bad:
+                rep.failure('C06:unclassified:queries-before-export:%s' % bad[0],
+                            'after the read-only queries %s %s' % (r['queries'], bad[1]), replay_dict(r, 'queries-before-export', bad[1]))
+                hist[key + '/differs-from-untouched-twin'] = hist.get(key + '/differs-from-untouched-twin', 0) + 1
+                continue
         if r['exp'] != 'Ok':
             tag = classify(r, 'export-raised')
             rep.failure(tag, 'export raised %s: %s' % (r['exp'], r.get('exp_msg')), replay_dict(r, 'export-raised'))
@@ -309,6 +406,10 @@ def explore(rep, tier, seed):
                        'structured generator (unicode, text spelled like numbers/booleans/None/lists, ints incl. negative and > 2^53, floats incl. '
                        '1e-320 and 1e308, bools, None, lists, nested dicts) x string/file target, plus directed cases. non-trivial = distinct '
                        '(class, typed metadata shape, number of rows, unit labels, column dtypes) whose round trip preserved the content')
+    rep.cov['query_histories'] = {'cases': n_hist, 'queries_performed': dict(sorted(n_q.items())),
+                                  'rule': 'every public method / property found on the class except from_* / guess / convert* / plot / print_info / '
+                                          'to_xl / to_db, 1-6 per history with drawn optional arguments (branch, units of the returned value, '
+                                          'limits, interpolation options, scalar / list arguments), then export; compared with an untouched twin'}
     rep.cov['input_distribution'] = dict(sorted(hist.items()), skipped_by_constructor=skipped)
     rep.cov['correspondence'] = {'cases': len(results), 'disagreements': n_dis,
                                  'what': 'model export vs implementation document; model import vs state of the re-imported object (typed, compared inside Coq)'}
@@ -324,7 +425,10 @@ def explore(rep, tier, seed):
 def replay(d):
     import logging
     logging.disable(logging.CRITICAL)
-    r = run_case(d['replay']['spec'], 0, d['replay'].get('target', 'string'))
+    r = run_case(d['replay']['spec'], 0, d['replay'].get('target', 'string'), hist_seed=d['replay'].get('hist_seed'))
+    if 'twin' in r:
+        print('read-only queries performed before the export:', r['queries'])
+        print('difference to an untouched twin:', history_diff(r))
     print('export:', r['exp'], r.get('exp_msg', ''))
     if r['exp'] == 'Ok':
         print('document:', r['doc'][:1500])
